@@ -16,6 +16,7 @@ CHECKS = {
         "(all index/slice forms incl. negative, reversed, extended steps) is executed in each on the real MonitoredList/"
         "MonitoredFocusList/SimpleListWalker/SimpleFocusListWalker and compared with a built-in list plus tracked focus object; sort with a key and with a raising key; "
         "beyond the cap: 300- and 1200-item lists with a focus index above 256, and pairs of lists whose modified listeners change the other list (every pair of mutators).",
+        "Also plain / reversed / keyed sort() of items that tie in their ordering, for every rank vector of 2..4 items and every focus. "
         "Trusted: CPython list semantics as reference; unique-token items; bound = list length cap (4 quick / 6 thorough).",
         "DESIGN.md §4 C16",
     ),
@@ -56,6 +57,7 @@ CHECKS = {
         "as str and as bytes, at every width 1..4/6, wrap mode and alignment: the layout structure is read with an own parser (order, once, "
         "segment widths, hidden characters, fit, alignment), rows() is compared with rendered rows, pack(()) with render(()), and rendered rows with the reference; "
         "plus an alphabet with a control character and a GBK configuration whose trail bytes reach into ASCII.",
+        "Also the same text as two-run markup, and a double-byte encoding named in upper case. "
         "Trusted: mc/refs/widths.py cell model (wcwidth); zero-width characters are not compared inside rendered rows.",
         "DESIGN.md §4 C03",
     ),
@@ -65,6 +67,7 @@ CHECKS = {
         "17 leaf canvases (wide/combining/DEC content, run-length attributes, cursor, pop-up, solid) are closed under every unary operation, every "
         "binary operation over a pool and a third layer with leaves; each result's text, attribute, charset flag, size and coordinates are compared "
         "with mc/refs/grid.py; operands are re-read, finalized canvases must refuse mutation, and content_delta applied to the old rows must give the new content.",
+        "Also chains that hand fill_attr_apply the same dictionary object repeatedly. "
         "Trusted: mc/refs/grid.py; expression depth <= 3 layers; delta is demanded on aligned geometries only (misaligned ones are a listed known finding).",
         "DESIGN.md §4 C02",
     ),
@@ -75,6 +78,7 @@ CHECKS = {
         "multi-byte character (alone, doubled, next to every alphabet byte, with single-byte substitutions) is decoded whole and in every fragmentation, "
         "with the completion alarm firing or not after each cut, and with one wake-up that carries no bytes after any cut; chunks go through the real get_available_raw_input; "
         "events, raw-byte accounting and alarm hygiene are compared with mc/refs/keyref.py. UTF-8 forms the codec rejects (over-long, surrogates, beyond U+10FFFF) included.",
+        "Also the synchronous get_input() path: every schedule of wake-ups delivering the next chunk and/or a window resize (throttling loop included), and codes handed to parse_input as bytearray / tuple. "
         "Trusted: golden key table frozen from the pinned tree; xterm ctlseqs for mouse/CPR; time-outs fire only between reads; bounds in evidence.",
         "DESIGN.md §4 C05",
     ),
@@ -85,6 +89,7 @@ CHECKS = {
         "operations are explored breadth-first with deduplication on the complete emulator state; every state is checked for grid shape, cursor/region "
         "bounds, content() shape, reply grammar and chunking independence; on the VT100 subset the emulator is compared after every token with "
         "mc/refs/vt_ref.py (accepting DEC/xterm or Linux-console behaviour where the family disagrees). Scrollback sweep: every scroll amount, then every kind of resize while scrolled back.",
+        "Also signed scroll_buffer amounts. "
         "Trusted: mc/refs/vt_ref.py; sizes <= 9x3 / 2x4; depth bounds in evidence; Terminal widget (child process) not driven, only TermCanvas.",
         "DESIGN.md §4 C15",
     ),
@@ -96,6 +101,7 @@ CHECKS = {
         "is rendered (inside the step, as the main loop does) and its rows must be a contiguous slice of the items' own renderings with focus/cursor visible and blanks only at the bottom. "
         "Also: items changing their height in place, set_focus requests that must hold after the render, positions -1 / len rejected, and pairs (set_focus / set_focus_valign, walker edit or resize) "
         "with no render in between.",
+        "Also rows that compare equal to each other and a ListBox built from a one-shot iterable. "
         "Trusted: unique row texts make the slice decidable; width fixed at 4 columns; quick depth 2, thorough depth 3 without and depth 2 with the pair operations; lists of <= 2/3 items + 6 longer ones.",
         "DESIGN.md §4 C07",
     ),
@@ -107,6 +113,7 @@ CHECKS = {
         "box Pile of <= 3/4 items; Padding/Filler over 19 size kinds x 9 alignments x minimum x margins 0..2 x available 1..12/18; Overlay over width kind x height kind "
         "x aligns x margins x sizes; GridFlow 1..5/7 cells x cell width x separators x align x available (also one cell with its own width, and cell_width reassigned); float weights; "
         "options reassigned on a live Padding / Overlay / Columns / Pile / GridFlow compared with a fresh container built with the new options.",
+        "Also a box Pile measured and rendered in focus whose packed focus item grows while selected. "
         "Trusted: mc/probe.py probes (constant natural sizes); weakest readings listed in the evidence assumptions; zero weights / zero given sizes excluded by the statement's precondition.",
         "DESIGN.md §4 C19",
     ),
@@ -117,6 +124,7 @@ CHECKS = {
         "~75 constructors (Padding/Filler option menus, decorations, LineBox variants, BoxAdapter, Pile/Columns given/pack/weight/box_columns, GridFlow, Frame parts, Overlay kinds, "
         "ListBox, Scrollable, ScrollBar), two levels of nesting, cols {1,2,3,5}/{1..6,9} x rows {1,2,4}/{1,2,3,4,6}, focus, utf8 / euc-jp / iso-8859-1: size, rows()/pack() agreement, "
         "row count, per-row column width, cursor containment.",
+        "Also a ScrollBar scrolled to the end over short words and a given-columns row with the cursor in its last column. "
         "Trusted: mc/refs/widths.py; slot typing by reported sizing(); trees for which urwid itself warns are skipped; failures are attributed to the smallest failing subtree; "
         "~100 listed known findings (degenerate sizes, fixed/flow modes of Overlay/Padding/LineBox, empty containers).",
         "DESIGN.md §4 C01",
@@ -128,6 +136,7 @@ CHECKS = {
         "states after set_focus_valign / body.set_focus / deletion) over 9 leaf kinds (painting probes, row-/column-refusing probes, unselectable probe, multi-line Edit, Edit with a "
         "two-row caption, SelectableIcon) and every constructor over every constructor for 3/6 leaves; 3/6 fitting sizes per tree and mode; every cell: cursor-agrees, hit, move-iff, move-row; "
         "per tree and size one live tree walked over every selectable leaf (moves, then presses) with all canvases alive and the cache warm.",
+        "Also a cursor-less top widget over a form (Overlay bottom) and an Edit subclass overriding get_cursor_coords. "
         "Trusted: mc/probe.py painting (cross-checked against the bounding boxes); fit = every leaf rendered once, fully visible, no canvas trimmed on the way, LineBox >= 3x3; "
         "trees whose path contains a widget without move_cursor_to_coords (Frame, Overlay, ListBox) are outside the quantifier for the move clauses.",
         "DESIGN.md §4 C09",
@@ -139,6 +148,7 @@ CHECKS = {
         "containers); operations: 10 keys, presses on every cell, focus_position for every valid position and -1/len/'bogus' on every container, focus-path round trip and restore, contents "
         "insert/assign/replace-all/delete/slice-delete (reversed, extended)/clear, walker insert/delete, Frame header/footer set/remove; depth 3/4 with dedup on the complete focus state; every "
         "state rendered (as the main loop does after each input); pairs (assignment or deletion, then press or arrow key) without a render in between, compared with the run that renders in between.",
+        "Also += on the live contents list and a saved path restored through an iterator; the raw focus index of an emptied container is part of the state key. "
         "Trusted: mc/probe.py; 'arrows move focus only onto selectable children' judged on Pile/Columns/GridFlow/Frame; at most 2 new widgets per history.",
         "DESIGN.md §4 C08",
     ),
@@ -148,6 +158,7 @@ CHECKS = {
         "~330/850 Edit configurations (caption, initial text incl. wide/combining/newline, width, wrap space/any/clip, alignment, multiline, allow_tab, mask, str and UTF-8 bytes) x 15 keys + a "
         "click on every cell, depth 3/4, text length <= 6, dedup on (text, offset, preferred column, view shift): text/offset model, offset range and character boundary, cursor cell, click "
         "target, change/postchange signals, unhandled keys; IntEdit / IntegerEdit / FloatEdit depth 4/6: alphabet invariant, model modulo leading zeros.",
+        "The observer is connected twice and disconnected once. "
         "Trusted: layout row structure (C03), mc/refs/widths.py; up/down accept any position at minimal distance from the preferred column (and the start of a combining cluster).",
         "DESIGN.md §4 C10",
     ),
@@ -158,6 +169,7 @@ CHECKS = {
         "and bar-wide views; ops: 7 keys, wheel up/down, 7 positions, resize to every size, content longer/shorter, and pairs of inputs without a render in between; depth 2/3; clauses: slice, "
         "range, reports-p, bar-iff-overflow, bar geometry, thumb-top-iff-p0, thumb-monotone (complete sweep), no-double-use; scrollbar_width / scrollbar_side reassigned and the wrapped widget replaced on the "
         "live ScrollBar; a second BFS (depth 3/4) over ScrollBar(ListBox): keys, wheel, resize, items growing / shrinking in place, walker append / pop.",
+        "Also a flow-only form whose focused field grows by a help line, and list walkers whose integer positions are keys (10, 20, ...) rather than counts. "
         "Trusted: unique rows identify p; distinctive thumb/trough characters; weakest readings in the evidence assumptions.",
         "DESIGN.md §4 C20",
     ),
@@ -168,6 +180,7 @@ CHECKS = {
         "Padding/AttrMap/LineBox; same widget twice + no_cache widget + ListBox over a signal-less walker), pre-rendered twice with both canvases alive; 8-19 mutators per fixture, 3-4 "
         "observation points, rows(), drop oldest/newest/all + gc; depth 3/4; dedup on (widget state, live cache entries and dependency edges, canvases held); clauses same-render, "
         "same-rows, handed-out-immutable, cached-canvas-immutable (every canvas found in the cache keeps the content it had when first seen).",
+        "Also containers that are empty (falsy) when their ancestors are first cached. "
         "Trusted: CPython refcounting makes release deterministic; the twin shares per-widget layout caches' behaviour; plain attribute assignment without a setter (Padding.left) is not a public mutator.",
         "DESIGN.md §4 C06",
     ),
@@ -178,6 +191,7 @@ CHECKS = {
         "innermost tag per glyph, padding None, no attribute run cutting a character, text intact; part 2: all mappings touching <= 2 keys of {None,x,y,z}: 1 level x 4 focus maps x both "
         "render orders, all pairs at 2 levels, 30^3 at 3 levels, sibling canvases, direct fill_attr_apply (caller's mapping untouched); part 3: ~400/900 palette entries + aliases + undefined x "
         "depths 1/16/88/256/2^24 x bright-is-bold x 5 orders of register_palette vs set_terminal_properties.",
+        "Also incremental frames after each palette name. "
         "Trusted: mc/refs/vt_ref.py SGR decoding; AttrSpec fields (C18); layout structure (C03) for the exact padding judgement on untrimmed lines.",
         "DESIGN.md §4 C17",
     ),
@@ -187,6 +201,7 @@ CHECKS = {
         "rows over 14 cell kinds (blank, letter, double-width, DEC line-drawing x default / palette names incl. one whose mono and high-colour variants add standout/underline / undefined name "
         "/ AttrSpec objects) at 3x2 (thorough: 4x2, 2x1, 3x3), cursor none/top-left/bottom-right; depth 1/16/88/256/2^24 x back_color_erase x utf-8/iso-8859-1; clauses cells, attrs (visible part "
         "for blanks), cursor, no-scroll, unknown-sequence, insert-mode-off; HTML back-end: html-text, html-one-cursor, no raise.",
+        "Also a top-level SolidCanvas before/after/between text frames and the palette registered from a one-shot generator. "
         "Trusted: mc/refs/vt_ref.py (pending wrap, IRM, SO/SI + G1 designation, EL with bce, SGR); expected renditions via c17.want_for/rendition; a resize makes terminal contents unknown.",
         "DESIGN.md §4 C04",
     ),
